@@ -427,27 +427,50 @@ def execute(plan):
             raise Violation(ID, "wrong_shape", f"shapes X{X.shape} P{P.shape} B{Bp.shape}")
         if not (np.all(np.isfinite(X)) and np.all(np.isfinite(P)) and np.all(np.isfinite(Bp))):
             raise Violation(ID, "non_finite", "non-finite entries in the returned factors")
-        v = max(float(np.max(lb - X)), float(np.max(X - ub)))
-        if v > eps_f * rngX:
-            raise Violation(ID, "intensity_out_of_bounds",
-                            f"layer intensities violate the source bounds by {v:.3g}", amount=v)
-        if plan["mask"] is not None and np.any(plan["mask"] == 0):
-            v = float(np.max(np.abs(X[plan["mask"] == 0])))
+        def feasibility(X, P, eps_f):
+            v = max(float(np.max(lb - X)), float(np.max(X - ub)))
             if v > eps_f * rngX:
-                raise Violation(ID, "mask_violated",
-                                f"a masked source has intensity {v:.3g}", amount=v)
-        if n_layers > 1 and plan["equal_l1"]:
-            tot = X.sum(1)
-            v = float(np.max(tot) - np.min(tot))
-            if v > eps_f * rngX * n_src:
-                raise Violation(ID, "unequal_layer_totals",
-                                f"layer totals differ by {v:.3g} although equal totals were "
-                                f"requested", amount=v)
-        lbp, ubp = np.atleast_2d(plan["lbp"]), np.atleast_2d(plan["ubp"])
-        v = max(float(np.max(lbp - P)), float(np.max(P - ubp)))
-        if v > eps_f:
-            raise Violation(ID, "opacity_out_of_bounds",
-                            f"opacities violate their bounds by {v:.3g}", amount=v)
+                raise Violation(ID, "intensity_out_of_bounds",
+                                f"layer intensities violate the source bounds by {v:.3g}", amount=v)
+            if plan["mask"] is not None and np.any(plan["mask"] == 0):
+                v = float(np.max(np.abs(X[plan["mask"] == 0])))
+                if v > eps_f * rngX:
+                    raise Violation(ID, "mask_violated",
+                                    f"a masked source has intensity {v:.3g}", amount=v)
+            if n_layers > 1 and plan["equal_l1"]:
+                tot = X.sum(1)
+                v = float(np.max(tot) - np.min(tot))
+                if v > eps_f * rngX * n_src:
+                    raise Violation(ID, "unequal_layer_totals",
+                                    f"layer totals differ by {v:.3g} although equal totals were "
+                                    f"requested", amount=v)
+            lbp, ubp = np.atleast_2d(plan["lbp"]), np.atleast_2d(plan["ubp"])
+            v = max(float(np.max(lbp - P)), float(np.max(P - ubp)))
+            if v > eps_f:
+                raise Violation(ID, "opacity_out_of_bounds",
+                                f"opacities violate their bounds by {v:.3g}", amount=v)
+
+        try:
+            feasibility(X, P, eps_f)
+        except Violation as v_feas:
+            # SCS at its default accuracy meets constraints only to its own (absolute)
+            # tolerance, which grows with the size of the problem (measured: opacities 2.5e-3
+            # outside [0, 1] on a 1159-row sub-problem).  A constraint the library forgot or
+            # mis-stated is violated with any solver: the violation is attributed only if the
+            # same request solved with CLARABEL violates its (tight) feasibility tolerance or
+            # if the excess is gross (5 x the SCS tolerance).
+            amount = float(v_feas.detail.get("amount", np.inf))
+            scale = rngX * (n_src if v_feas.cls == "unequal_layer_totals" else 1.0) \
+                if v_feas.cls != "opacity_out_of_bounds" else 1.0
+            if plan["solver"] != "SCS" or plan["mode"] == "werror" or amount > 5 * eps_f * scale:
+                raise
+            out_c = call(run_decomp, dict(plan, solver="CLARABEL", scs_max_iters=None),
+                         build(plan))
+            if not out_c.ok:
+                raise
+            Xc, Pc, _ = (np.asarray(v_) for v_ in out_c.value)
+            feasibility(Xc, Pc, 1e-5)
+            bump("scs_feasibility_excess_not_confirmed_with_clarabel")
         KA, Kb = model_terms(plan)
         v = float(np.max(np.abs(Bp - (P @ X @ KA.T + Kb))))
         if v > 1e-9 * max(1.0, float(np.max(np.abs(Bp)))):
